@@ -1,7 +1,7 @@
 (* Property C15 - only statements, each closed by [exact]. *)
 From Coq Require Import NArith List Bool.
 Import ListNotations.
-Require Import UV.C15.Model UV.C15.Doc UV.C15.GraphF UV.C15.Proofs.
+Require Import UV.C15.Model UV.C15.Doc UV.C15.GraphF UV.C15.BackTrace UV.C15.Proofs.
 Local Open Scope N_scope.
 
 (* Function names and string arguments: whatever bytes a name consists of, the text that
@@ -267,3 +267,15 @@ Theorem C15_graph_func_rows_complete : forall func tids s, wf_stream s = true ->
     exists e, In e (walk_root (graphf_build func tids s)) /\ w_path e = q.
 Proof. exact graphf_walk_complete. Qed.
 Print Assumptions C15_graph_func_rows_complete.
+
+(* The BACKTRACE section of `uftrace graph FUNC` (save_backtrace_addr / save_backtrace_time): functions are symbol
+   indices (an address determines the symbol), isf i = symbol i is called FUNC.  For EVERY stack of symbols q the
+   `hit` printed for q (0 = q is not listed) is the number of outermost entries of FUNC made with exactly that stack,
+   and for every stack that ends in an outermost FUNC the `time` is the total duration of those calls (mod 2^64). *)
+Theorem C15_graph_func_backtraces : forall isf tids s,
+  wf_stream (istream_as_stream s) = true -> NoDup tids ->
+  (forall q, hit_of q (backtraces isf tids s) = ref_bt_hit q (ref_bt_keys isf s))
+  /\ (forall q, outermost isf q = true ->
+        time_of q (backtraces isf tids s) = ref_bt_time q (ref_calls tids (istream_as_stream s)) mod W64).
+Proof. exact backtraces_sums. Qed.
+Print Assumptions C15_graph_func_backtraces.
